@@ -2,6 +2,7 @@
 import io
 import os
 import subprocess
+import sys
 
 import common
 import gen
@@ -204,9 +205,51 @@ def iso_doc(rg):
     return ''.join(parts)
 
 
+def interpreter_state():
+    """settings of the interpreter that a parse has no business changing (they outlive the call and change what later
+    parses - of deeply nested documents, say - do)"""
+    import gc
+    import locale
+    import warnings
+    return {'recursionlimit': sys.getrecursionlimit(), 'switchinterval': sys.getswitchinterval(), 'gc': gc.isenabled(),
+            'gc_threshold': gc.get_threshold(), 'locale': locale.setlocale(locale.LC_ALL), 'warnings': len(warnings.filters),
+            'int_max_str_digits': sys.get_int_max_str_digits(), 'trace': sys.gettrace() is not None,
+            'profile': sys.getprofile() is not None, 'cwd': os.getcwd(), 'environ': len(os.environ)}
+
+
+def big_then_deep(_):
+    """an earlier parse of a long flat document must not change the outcome of a deeply nested one: B, A, B"""
+    T = common.impl()
+    deep = '\\textit{' * 300 + 'x' + '}' * 300
+    flat = ''.join('\\section{S%d} text {g} \\emph{e}\n' % i for i in range(1500))
+
+    def outcome(src):
+        try:
+            return 'tree %d' % len(str(T.TexSoup(src)))
+        except RecursionError:
+            return 'RecursionError'
+        except Exception as e:      # noqa
+            return type(e).__name__
+    sys.setrecursionlimit(1000)          # the interpreter's default (the harness itself runs with a larger limit)
+    before = interpreter_state()
+    o1 = outcome(deep)
+    o2 = outcome(flat)
+    o3 = outcome(deep)
+    after = interpreter_state()
+    if o1 != o3:
+        return ('parse-influenced', 'the same deeply nested source gave %s before and %s after parsing a long flat one' % (o1, o3))
+    if before != after:
+        ch = [k for k in before if before[k] != after[k]]
+        return ('interpreter-state', 'parsing changed interpreter settings: %s (%r -> %r)' % (
+            ch, [before[k] for k in ch], [after[k] for k in ch]))
+    return 'ok'
+
+
 def interleave(s1, s2, rg):
     """parse/edit interleavings on two documents; returns None or (key, what)"""
     T = common.impl()
+    sys.setrecursionlimit(1000)          # the interpreter's default; these documents are small
+    state0 = interpreter_state()
 
     def canon(s):
         return common.impl_parse(s)[0]
@@ -253,6 +296,10 @@ def interleave(s1, s2, rg):
         got = 'TREE %s SER %s' % (common.canon_root(soup), common.enc(str(soup)))
         if got != ref:
             return ('parse-influenced', '%s changed by edits to another tree' % nm)
+    state1 = interpreter_state()
+    if state1 != state0:
+        ch = [k for k in state0 if state0[k] != state1[k]]
+        return ('interpreter-state', 'parsing changed interpreter settings: %s' % ch)
     return 'ok'
 
 
@@ -299,6 +346,11 @@ def oracle(ctx, seeds, scale):
     # 'spawn': fresh interpreters - this process may itself have parsed with other options already
     with mp.get_context('spawn').Pool(min(16, os.cpu_count() or 1), maxtasksperchild=8) as pool:
         results = pool.map(_interleave_job, pairs, chunksize=1)
+    with mp.get_context('spawn').Pool(1) as pool:
+        x = pool.map(big_then_deep, [0])[0]
+    r.count(('big-then-deep',), True)
+    if x != 'ok':
+        r.fail(x[0], x[1], input='\\textit{ x300 ; 1500 sections ; \\textit{ x300')
     for (s1, s2, _), x in zip(pairs, results):
         r.count(('inter', s1, s2), True)
         if x not in (None, 'ok'):
